@@ -702,10 +702,10 @@ __strfd_card(
 				3 - (s.pad == DT_SPPAD_OMIT) << 1U, padchar(s));
 			break;
 		case DT_LDN:
-			res = snprintf(buf, bsz, "%u", that.ldn);
+			res = snprintfd(snprintf(buf, bsz, "%u", that.ldn), bsz);
 			break;
 		case DT_JDN:
-			res = snprintf(buf, bsz, "%.6f", that.jdn);
+			res = snprintfd(snprintf(buf, bsz, "%.6f", that.jdn), bsz);
 			break;
 		case DT_YMCW:
 		case DT_YWD:
@@ -794,7 +794,7 @@ __strfd_dur(
 		break;
 	case DT_SPFL_N_DSTD:
 	case DT_SPFL_N_DCNT_MON:
-		res = snprintf(buf, bsz, "%d", d->sd);
+		res = snprintfd(snprintf(buf, bsz, "%d", d->sd), bsz);
 		break;
 	case DT_SPFL_N_YEAR:
 		if (!d->y) {
@@ -803,10 +803,10 @@ __strfd_dur(
 			d->y = __uidiv(d->m, GREG_MONTHS_P_YEAR);
 			d->m = __uimod(d->m, GREG_MONTHS_P_YEAR);
 		}
-		res = snprintf(buf, bsz, "%d", d->y);
+		res = snprintfd(snprintf(buf, bsz, "%d", d->y), bsz);
 		break;
 	case DT_SPFL_N_MON:
-		res = snprintf(buf, bsz, "%d", d->m);
+		res = snprintfd(snprintf(buf, bsz, "%d", d->m), bsz);
 		break;
 	case DT_SPFL_N_DCNT_WEEK:
 		if (!d->w) {
@@ -815,10 +815,10 @@ __strfd_dur(
 			d->w = __uidiv(d->d, GREG_DAYS_P_WEEK);
 			d->d = __uimod(d->d, GREG_DAYS_P_WEEK);
 		}
-		res = snprintf(buf, bsz, "%d", d->w);
+		res = snprintfd(snprintf(buf, bsz, "%d", d->w), bsz);
 		break;
 	case DT_SPFL_N_WCNT_MON:
-		res = snprintf(buf, bsz, "%d", d->c);
+		res = snprintfd(snprintf(buf, bsz, "%d", d->c), bsz);
 		break;
 	case DT_SPFL_S_WDAY:
 	case DT_SPFL_S_MON:
